@@ -1,9 +1,10 @@
 #!/bin/bash
-# usage: seedcheck.sh <worktree-id> <demo filter> <check ids...>
+# usage: seedcheck.sh <worktree-id> <demo filter> <check ids...>     (VERIF_DIR: the framework tree to use, default /verif)
 # 1. confirm (in the scratch worktree /tmp/mut/<id>, which has the seeded change and its demonstration applied):
 #    with the change the 56 baseline tests pass and the demonstration fails; without it the demonstration passes.
 # 2. run the given checks against that worktree (VERIF_REPO): /repo itself is never touched.
 set -u
+V=${VERIF_DIR:-/verif}
 ID=$1; FILTER=$2; shift 2
 W=/tmp/mut/$ID
 export CARGO_TARGET_DIR=/tmp/mut/target_confirm_$ID CARGO_NET_OFFLINE=true RUST_BACKTRACE=0
@@ -18,9 +19,11 @@ git apply _out/patch.diff
 unset CARGO_TARGET_DIR
 rm -rf /tmp/mut/target_confirm_$ID
 echo "== framework checks against the worktree with the change"
-[ -d /verif/target/harness_$ID ] || cp -a /verif/target/harness /verif/target/harness_$ID
-cd /verif
+[ -d $V/target/harness_$ID ] || cp -a $V/target/harness $V/target/harness_$ID
+cd $V
 for c in "$@"; do
-  echo "-- check $c"; VERIF_REPO=$W bin/vf check $c 2>&1 | grep -E "VIOLATION|KNOWN-F|TOOL" | head -3; echo "exit ${PIPESTATUS[0]}"
+  tier=quick; case $c in *:t) tier=thorough; c=${c%:t};; esac
+  echo "-- check $c ($tier)"; VERIF_REPO=$W bin/vf check $c --tier $tier > /tmp/mut/seed_${ID}_$c.log 2>&1; e=$?
+  grep -E "VIOLATION|TOOL" /tmp/mut/seed_${ID}_$c.log | head -3; echo "exit $e"
 done
-rm -rf /verif/target/harness_$ID /verif/target/e2e_$ID /verif/work/*_$ID
+rm -rf $V/target/harness_$ID $V/target/e2e_$ID $V/work/*_$ID
